@@ -219,6 +219,9 @@ def verify_success(db, sm, da, strict, probs, path=""):
         probs.append(("existing-sections-reordered", here))
 
 
+WARNINGS_AS_ERRORS = False
+
+
 def run_case(case, ctx):
     rec = ctx.rec
     dspec, sspec, strict = dec(case["dest"]), dec(case["src"]), case["strict"]
@@ -255,9 +258,24 @@ def run_case(case, ctx):
         rec.count("planted", "|".join(sorted(set(r.split("@")[0] for r in an["reasons"]))) or "none")
         raised = None
         try:
+            if WARNINGS_AS_ERRORS:
+                warnings.simplefilter("error")
             dest.merge(src, strict=strict)
+        except Warning as exc:
+            # the environment turned a warning into an exception: only the all-or-nothing clause is judged
+            warnings.simplefilter("ignore")
+            da, sa = model.model_of(dest), model.model_of(src)
+            rec.monitor("raise-unchanged")
+            if model.diff(db, da) or model.diff(sb, sa):
+                rec.violation("merge:%s/raised-%s-but-changed-%s:warning-as-error" % (
+                    "strict" if strict else "lenient", type(exc).__name__, "dest" if model.diff(db, da) else "src"),
+                    "merge ended in %r; dest diff %r" % (exc, model.diff(db, da)[:2]), case)
+            rec.outcome("raised:warning-as-error")
+            return
         except Exception as exc:
             raised = exc
+        finally:
+            warnings.simplefilter("ignore")
         da, sa = model.model_of(dest), model.model_of(src)
         tag = "strict" if strict else "lenient"
         if raised is not None:
@@ -460,11 +478,13 @@ def planted_cases():
                 cases.append({"dest": enc(d), "src": enc(s), "strict": strict, "planted": ["values-of-lookalike-type", tag, depth, "prop"]})
         # n-tuple Properties: same arity merges, another arity cannot
         for sdt, svals, tag in (("2-tuple", [["3", "4"], ["1", "2"]], "2-tuple<-2-tuple"), ("2-tuple", [["1", "2"]], "2-tuple<-equal"),
-                                ("3-tuple", [["3", "4", "5"]], "2-tuple<-3-tuple"), ("2-tuple", [["5", ""]], "2-tuple<-empty-element")):
+                                ("3-tuple", [["3", "4", "5"]], "2-tuple<-3-tuple"), ("2-tuple", [["5", ""]], "2-tuple<-empty-element"),
+                                ("2-tuple", [["n", str(k)] for k in range(3)], "many-values<-2-tuple")):
             for depth in (0, 1):
                 d, s = template(), template()
                 dn, sn = (d, s) if depth == 0 else (d["sections"][0], s["sections"][0])
-                dn["properties"].append(P("tup", "2-tuple", [["1", "2"]]))
+                dn["properties"].append(P("tup", "2-tuple", [["1", "2"]] if not tag.startswith("many") else
+                                          [["v", str(k)] for k in range(25)]))
                 sn["properties"].append(P("tup", sdt, svals))
                 cases.append({"dest": enc(d), "src": enc(s), "strict": strict, "planted": ["tuple-properties", tag, depth, "prop"]})
         # numbers (zeros in particular) merged into a text Property are converted to their text
@@ -552,6 +572,11 @@ def random_pair(rng):
 
 def run(ctx):
     rec = ctx.rec
+    global WARNINGS_AS_ERRORS
+    if ctx.shard % 4 == 2:
+        # environment: warnings raised as exceptions; a merge that ends in one is a merge that raised
+        WARNINGS_AS_ERRORS = True
+        rec.count("worker-environments", "warnings-as-errors")
     planted = planted_cases()
     if ctx.shard == 0:
         rec.extra["planted_cases"] = len(planted)
